@@ -15,3 +15,6 @@ open Gossamer.C35
 #print axioms Gossamer.Monitor.prefix_consistent
 #print axioms Gossamer.Monitor.disciplined_raceFree
 #print axioms Gossamer.Monitor.raceFree_disciplined
+#print axioms C35_get_needs_lock
+#print axioms Gossamer.C35.goodTable_today
+#print axioms Gossamer.Monitor.modeIn_lock
